@@ -223,6 +223,11 @@ theorem RO.statsAll : RO statsAll := by unfold Circus.Core.statsAll; ro
 @[aesop safe apply (rule_sets := [ReadOnly])]
 theorem RO.execStats (props : JVal) : RO (execStats props) := by unfold Circus.Core.execStats; ro
 
+@[aesop safe apply (rule_sets := [ReadOnly])]
+theorem RO.execOptions (props : JVal) : RO (execOptions props) := by unfold Circus.Core.execOptions; ro
+@[aesop safe apply (rule_sets := [ReadOnly])]
+theorem RO.execGet (props : JVal) : RO (execGet props) := by unfold Circus.Core.execGet; ro
+
 theorem RO.execReadOnly (cmd : String) (props : JVal) : RO (execReadOnly cmd props) := by
   unfold Circus.Core.execReadOnly
   split
@@ -238,6 +243,11 @@ theorem RO.execReadOnly (cmd : String) (props : JVal) : RO (execReadOnly cmd pro
   · exact ⟨fun s => Ticks.refl s, fun _ _ _ => rfl⟩
   · ro
   · exact RO.execStats props
+  · exact RO.execOptions props
+  · exact RO.execGet props
+  · ro
+  · ro
+  · ro
   · ro
 
 /-- never a future: the command is answered from the value it returns -/
@@ -271,6 +281,32 @@ theorem NoFut.statsAll : NoFut statsAll := by unfold Circus.Core.statsAll; ro
 theorem NoFut.execStats (props : JVal) : NoFut (execStats props) := by
   unfold Circus.Core.execStats
   ro
+
+theorem getBody_ne_future (w : Watcher) (keys : JVal) (tid : Nat) (x : String) : getBody w keys ≠ .ok (.future tid x) := by
+  unfold getBody
+  split
+  · intro h; cases h
+  · split <;> (intro h; cases h)
+theorem globalOptionsBody_ne_future (props : JVal) (tid : Nat) (x : String) :
+    globalOptionsBody props ≠ .ok (.future tid x) := by
+  unfold globalOptionsBody
+  simp only
+  split
+  · intro h; cases h
+  · split
+    · intro h; cases h
+    · split
+      · split <;> (intro h; cases h)
+      · intro h; cases h
+theorem NoFut.getBody (w : Watcher) (keys : JVal) : NoFut (pure (getBody w keys)) :=
+  fun _ tid x => getBody_ne_future w keys tid x
+theorem NoFut.globalOptionsBody (props : JVal) : NoFut (pure (globalOptionsBody props)) :=
+  fun _ tid x => globalOptionsBody_ne_future props tid x
+attribute [aesop safe apply (rule_sets := [ReadOnly])] NoFut.getBody NoFut.globalOptionsBody
+@[aesop safe apply (rule_sets := [ReadOnly])]
+theorem NoFut.execOptions (props : JVal) : NoFut (execOptions props) := by unfold Circus.Core.execOptions; ro
+@[aesop safe apply (rule_sets := [ReadOnly])]
+theorem NoFut.execGet (props : JVal) : NoFut (execGet props) := by unfold Circus.Core.execGet; ro
 
 theorem NoFut.execReadOnly (cmd : String) (props : JVal) : NoFut (execReadOnly cmd props) := by
   unfold Circus.Core.execReadOnly
